@@ -453,6 +453,62 @@ def cross_policy_case(ctx, i, rng, judge="C10"):
     ctx.fingerprint(("cross", what, tuple(off), accepted), True)
 
 
+def leaf_adoption_case(ctx, i, rng):
+    """A single port / cable / instance built stand-alone under the DEFAULT policy (any identifier goes) and added to an
+    EDIF-policy definition: refused exactly when its identifier is ill-formed or equals a sibling's ignoring case."""
+    sdn.namespace_manager.default = "EDIF"
+    n = sdn.Netlist("n")
+    lib = n.create_library("host")
+    leafdef = lib.create_definition("leafdef")
+    host = lib.create_definition("hostdef")
+    sib = {"port": host.create_port("p_sib", pins=1), "cable": host.create_cable("c_sib", wires=1),
+           "instance": host.create_child("i_sib", reference=leafdef)}
+    for k_, x in sib.items():
+        x["EDIF.identifier"] = "Sib_" + k_
+    sdn.namespace_manager.default = "DEFAULT"
+    try:
+        kind = rng.choice(["port", "cable", "instance"])
+        o = {"port": lambda: sdn.Port("orph"), "cable": lambda: sdn.Cable("orph"), "instance": lambda: sdn.Instance("orph")}[kind]()
+        if kind == "instance":
+            o.reference = leafdef
+        v = rng.choice(["ok_1", "&9", "9a", "a-b", "a b", "_n", "", "sib_" + kind, "SIB_" + kind.upper(), "x" * 257, "fine"])
+        if rng.random() < 0.85:
+            o["EDIF.identifier"] = v
+        else:
+            v = None
+        if rng.random() < 0.3:
+            # ... or it lived in an EDIF definition before, was taken out and re-tagged
+            o[".NS"] = "DEFAULT"
+    finally:
+        sdn.namespace_manager.default = "EDIF"
+    must_refuse = v is not None and (not LEGAL.match(v) or v.lower() == ("sib_" + kind))
+    ctx.count("cross_policy_adds")
+    ctx.count("cross_policy_leaf_adds")
+    ctx.count("naming_edits_judged")
+    try:
+        {"port": host.add_port, "cable": host.add_cable, "instance": host.add_child}[kind](o)
+        accepted = True
+    except ValueError:
+        accepted = False
+    except Exception as ex:  # noqa: BLE001
+        ctx.violation("cross-policy-add-crashed:%s" % type(ex).__name__, "%r at %s" % (ex, probes.innermost_frame(ex)))
+        return
+    finally:
+        sdn.namespace_manager.default = "DEFAULT"
+    if accepted and must_refuse:
+        ctx.violation("cross-policy-add-accepts-noncompliant-leaf", "add of a DEFAULT-built %s with EDIF.identifier %r accepted by an EDIF-policy definition" % (kind, v[:40]))
+        return
+    if not accepted and not must_refuse:
+        ctx.violation("cross-policy-add-false-refusal", "add of a DEFAULT-built %s with EDIF.identifier %r was refused by an EDIF-policy definition" % (kind, v))
+        return
+    if accepted:
+        r = scan_scope(ctx, host) or lookup_scope(ctx, host)
+        if r:
+            ctx.violation("cross-policy:%s" % r[0], r[1])
+            return
+    ctx.fingerprint(("cross-leaf", kind, v, accepted), True)
+
+
 def to_default_case(ctx, i, rng, judge="C10"):
     """The other direction: a subtree built as an ORPHAN under the EDIF policy is added to a DEFAULT-policy parent.  Under the
     DEFAULT policy only exact name duplicates among siblings OF THE SAME KIND matter (ports, cables and instances of a
@@ -536,6 +592,23 @@ def to_default_case(ctx, i, rng, judge="C10"):
             if r:
                 ctx.violation("cross-policy:%s:after-edit-below-retagged-scope" % r[0], r[1])
                 return
+        # the adopted scopes now live under the DEFAULT policy: identifiers are free-form there and may repeat, also ignoring
+        # case - an identifier write that the EDIF policy would have refused is accepted
+        for d in hosts:
+            for sibs in (list(d.ports), list(d.cables), list(d.children)):
+                have = [x for x in sibs if "EDIF.identifier" in x]
+                if have and len(sibs) >= 2 and rng.random() < 0.6:
+                    x = rng.choice(have)
+                    y = rng.choice([z for z in sibs if z is not x])
+                    v = rng.choice([x["EDIF.identifier"], x["EDIF.identifier"].swapcase(), "9 not-an-identifier"])
+                    ctx.count("identifier_writes_after_adoption_by_default_policy")
+                    try:
+                        y["EDIF.identifier"] = v
+                    except ValueError as ex:
+                        ctx.violation("cross-policy-false-refusal:identifier-write-under-default-policy",
+                                      "after an EDIF-built orphan was adopted by a DEFAULT-policy parent, EDIF.identifier = %r on a %s was refused (%s)" % (
+                                          v, type(y).__name__, str(ex)[:80]))
+                        return
         for P in [n] + list(n.libraries) + [d_ for l in n.libraries for d_ in l.definitions]:
             r = scan_scope(ctx, P) or lookup_scope(ctx, P)
             if r:
@@ -553,6 +626,8 @@ def run_case(ctx, i, rng):
                 cross_policy_case(ctx, i, rng)
             for _ in range(6):
                 to_default_case(ctx, i, rng)
+            for _ in range(8):
+                leaf_adoption_case(ctx, i, rng)
             return
         finally:
             sdn.namespace_manager.default = "DEFAULT"
